@@ -2,6 +2,6 @@ SPECIFICATION TSpec
 CONSTANTS
   N = 1
   Threads = {"t1"}
-  StrictInner = FALSE
+  StrictInner = TRUE
 POSTCONDITION Accepted
 CHECK_DEADLOCK FALSE
